@@ -879,6 +879,7 @@ pub enum Bias {
     Shutdown, // C10
     Reclaim,  // C11
     Contract, // C14
+    Reply,    // C01, C18
 }
 
 pub fn bias_of(p: &str) -> Bias {
@@ -889,6 +890,7 @@ pub fn bias_of(p: &str) -> Bias {
         "c10" => Bias::Shutdown,
         "c11" => Bias::Reclaim,
         "c14" => Bias::Contract,
+        "c01" | "c18" => Bias::Reply,
         _ => Bias::General,
     }
 }
@@ -925,6 +927,7 @@ pub fn gen(rng: &mut Rng, bias: Bias) -> Script {
             Bias::Reclaim => [16, 16, 10, 22, 12, 6, 2, 3, 1, 0, 2, 0],
             Bias::Contract => [14, 12, 6, 24, 6, 3, 3, 16, 2, 1, 3, 1],
             Bias::General => [14, 14, 8, 22, 9, 5, 3, 5, 2, 1, 3, 1],
+            Bias::Reply => [14, 18, 7, 24, 22, 2, 1, 2, 1, 0, 4, 0],
         };
         match rng.weighted(&w) {
             0 => {
